@@ -5,6 +5,7 @@ CONSTANTS
   MaxLen = 5
   RegMode = "perposition"
   Walk = "recursive"
+  Faults = FALSE
 INIT Init
 NEXT Next
 INVARIANT VariantChoice
